@@ -8,8 +8,9 @@ LEVEL = 'exploration'
 
 def run(ctx, only=None):
     bindir = libmon.build()
-    args = ['--seed=%d' % ctx.seed] + (['--len=4', '--uflen=3', '--random=1500'] if ctx.tier == 'quick' else ['--len=5', '--uflen=4', '--random=60000'])
-    recs, rc, err = libmon.run_bin(bindir, 'c18_uf', args)
+    args = ['--seed=%d' % ctx.seed] + (['--len=4', '--uflen=3', '--random=1500'] if ctx.tier == 'quick' else ['--len=5', '--uflen=4', '--random=30000'])
+    recs, rc, err = libmon.run_bin_sharded(bindir, 'c18_uf', args)      # one OS process per core, histories split by index
+    ctx.cov['processes'] = core.NCPU
     ctx.rule = ('TrRelUnionFind: ALL add-sequences of length <= L over 4 elements (16 pairs per step, incl. repeated pairs, self pairs, back edges over merged classes) and random '
                 'histories (3-40 elements, 10-300 adds, biased to close cycles); after EVERY add: contains for all pairs, iter_all (set + no duplicates), set_of, rev_set_of, '
                 'count_exact vs a Floyd-Warshall reflexive-transitive closure, plus assert_disjoint_invariant / assert_set_connections_dominant_sets. UnionFind: ALL sequences of '
